@@ -761,3 +761,87 @@ pub proof fn lemma_final<'f, S: 'f + Clone + Debug + PartialOrd, A: FixedPointAn
         assert forall|l: Loc| st(l) is Some implies #[trigger] eqn_at(a, f, fwd, st, l) by { assert(!inq(l)); }
     }
 }
+
+// ---------------------------------------------------------------------------------------------
+// client-facing consequences of the solver's postconditions
+
+/// the in-state is a LEAST UPPER BOUND of the states of the inputs ("the join of the states of its predecessors")
+pub proof fn lemma_in_fold_is_lub<'f, S: 'f + Clone + Debug + PartialOrd, A: FixedPointAnalysis<'f, S>>(a: &A, f: Function, fwd: bool, st: LMap<S>, l: Loc, ps: Seq<Loc>)
+    requires lm_inv(a, st), lists_inputs(f, fwd, l, ps),
+    ensures
+        opt_inv(a, in_fold(a, st, ps)),
+        in_fold(a, st, ps) is Some <==> exists|p: Loc| input_of(f, fwd, l, p) && #[trigger] st(p) is Some,
+        forall|p: Loc| input_of(f, fwd, l, p) && #[trigger] st(p) is Some ==> in_fold(a, st, ps) is Some && a.le(st(p).unwrap(), in_fold(a, st, ps).unwrap()),
+        forall|c: S| a.st_inv(c) && (forall|p: Loc| input_of(f, fwd, l, p) && #[trigger] st(p) is Some ==> a.le(st(p).unwrap(), c))
+            ==> (in_fold(a, st, ps) matches Some(j) ==> #[trigger] a.le(j, c)),
+{
+    lemma_inputs_inv(a, st, ps);
+    lemma_fold_inv(a, st, ps, ps.len());
+    assert forall|p: Loc| input_of(f, fwd, l, p) && #[trigger] st(p) is Some implies in_fold(a, st, ps) is Some && a.le(st(p).unwrap(), in_fold(a, st, ps).unwrap()) by {
+        assert(ps.contains(p));
+        let i = choose|i: int| 0 <= i < ps.len() && ps[i] == p;
+        lemma_fold_ub(a, st, ps, ps.len(), i);
+    }
+    if in_fold(a, st, ps) is Some {
+        lemma_fold_some(a, st, ps, ps.len());
+        let i = choose|i: int| 0 <= i < ps.len() && #[trigger] st(ps[i]) is Some;
+        assert(input_of(f, fwd, l, ps[i]) && st(ps[i]) is Some);
+    }
+    assert forall|c: S| a.st_inv(c) && (forall|p: Loc| input_of(f, fwd, l, p) && #[trigger] st(p) is Some ==> a.le(st(p).unwrap(), c))
+        implies (in_fold(a, st, ps) matches Some(j) ==> #[trigger] a.le(j, c)) by {
+        assert forall|i: int| 0 <= i < ps.len() implies (#[trigger] st(ps[i]) matches Some(y) ==> a.le(y, c)) by {
+            assert(input_of(f, fwd, l, ps[i]));
+        }
+        lemma_fold_least(a, st, ps, ps.len(), c);
+    }
+}
+
+/// the listing order is irrelevant: the equation holds for EVERY listing of the inputs
+pub proof fn lemma_eqn_any_listing<'f, S: 'f + Clone + Debug + PartialOrd, A: FixedPointAnalysis<'f, S>>(a: &A, f: Function, fwd: bool, st: LMap<S>, l: Loc, ps: Seq<Loc>)
+    requires
+        f.function_wf(), a.an_inv(f), lm_inv(a, st), fp_closure(f, fwd, l),
+        eqn_at(a, f, fwd, st, l), lists_inputs(f, fwd, l, ps),
+    ensures eqv(a, st(l).unwrap(), a.trans_spec(f, l, in_fold(a, st, ps))),
+{
+    let p0 = choose|p0: Seq<Loc>| #[trigger] lists_inputs(f, fwd, l, p0) && eqv(a, st(l).unwrap(), a.trans_spec(f, l, in_fold(a, st, p0)));
+    lemma_inputs_inv(a, st, ps);
+    lemma_inputs_inv(a, st, p0);
+    assert forall|i: int| 0 <= i < ps.len() implies (#[trigger] st(ps[i]) matches Some(x) ==>
+        p0.contains(ps[i]) && (st(ps[i]) matches Some(y) && a.le(x, y))) by {
+        assert(input_of(f, fwd, l, ps[i]));
+        lemma_opt_le_refl(a, st(ps[i]));
+    }
+    assert forall|i: int| 0 <= i < p0.len() implies (#[trigger] st(p0[i]) matches Some(x) ==>
+        ps.contains(p0[i]) && (st(p0[i]) matches Some(y) && a.le(x, y))) by {
+        assert(input_of(f, fwd, l, p0[i]));
+        lemma_opt_le_refl(a, st(p0[i]));
+    }
+    lemma_fold_le(a, st, ps, st, p0);
+    lemma_fold_le(a, st, p0, st, ps);
+    lemma_fold_inv(a, st, ps, ps.len());
+    lemma_fold_inv(a, st, p0, p0.len());
+    let j = in_fold(a, st, ps);
+    let j0 = in_fold(a, st, p0);
+    a.law_trans_inv(f, fwd, l, j);
+    a.law_trans_inv(f, fwd, l, j0);
+    assert(opt_inv(a, st(l)));
+    if j is Some {
+        a.law_trans_cong(f, fwd, l, j.unwrap(), j0.unwrap());
+        a.law_trans_cong(f, fwd, l, j0.unwrap(), j.unwrap());
+        a.law_le_trans(st(l).unwrap(), a.trans_spec(f, l, j0), a.trans_spec(f, l, j));
+        a.law_le_trans(a.trans_spec(f, l, j), a.trans_spec(f, l, j0), st(l).unwrap());
+    }
+}
+
+/// the domain contains the start location and is closed under steps
+pub proof fn lemma_solution_closed<S>(f: Function, fwd: bool, st: LMap<S>)
+    requires solution_domain(f, fwd, st),
+    ensures
+        start_loc(f, fwd) matches Some(s) ==> st(s) is Some,
+        forall|l: Loc, l2: Loc| st(l) is Some && #[trigger] step(f, fwd, l, l2) ==> st(l2) is Some,
+{
+    if start_loc(f, fwd) is Some { lemma_closure_start(f, fwd); }
+    assert forall|l: Loc, l2: Loc| st(l) is Some && #[trigger] step(f, fwd, l, l2) implies st(l2) is Some by {
+        lemma_closure_step(f, fwd, l, l2);
+    }
+}
